@@ -648,13 +648,15 @@ class EQLTranslator:
         if anchor_dao is None:
             raise MissingDAOError("Selected variable has no DAO class")
 
-        if left_dao is not anchor_dao and right_dao is not anchor_dao:
-            # the statement selects from the selected variable's table: a JOIN has to start there
+        selected = self.select_like.selected_variable
+        if left_leaf is not selected and right_leaf is not selected:
+            # the statement selects from the selected variable's table: a JOIN has to start there. Another variable of the
+            # selected variable's class is not the selected variable.
             raise UnsupportedQueryTypeError(
                 "An equality between attributes of two variables none of which is selected cannot be translated"
             )
 
-        if left_dao is anchor_dao:
+        if left_leaf is selected:
             target_dao, target_fk, anchor_fk = right_dao, right_fk, left_fk
         else:
             target_dao, target_fk, anchor_fk = left_dao, left_fk, right_fk
